@@ -30,7 +30,12 @@ POOL = [
     ('ip', 'en-us', '192.168.0.1 and ::1', None), ('phone', 'en-us', 'call 425-555-0100', None), ('email', 'en-us', 'mail a@b.com now', None), ('url', 'en-us', 'see www.bing.com', None),
     ('guid', 'en-us', '{123e4567-e89b-12d3-a456-426614174000}', None), ('hashtag', 'en-us', '#verif', None), ('mention', 'en-us', '@someone', None),
     ('boolean', 'en-us', 'yes please', None), ('boolean', 'en-us', 'not ok', None),
+    # requests whose values are numerically equal but written differently (a memo keyed on the value would confuse them)
+    ('number', 'en-us', '0', None), ('number', 'en-us', '0.0', None), ('number', 'en-us', '-0', None), ('number', 'en-us', '0.0000001', None), ('number', 'en-us', '1e-7', None),
+    ('number', 'en-us', '1', None), ('number', 'en-us', '1.0', None), ('number', 'en-us', 'one hundred', None), ('number', 'en-us', '100.00', None),
+    ('temperature', 'en-us', '0 degrees celsius', None), ('temperature', 'en-us', '-0 degrees celsius', None), ('number', 'de-de', '0,0', None), ('number', 'de-de', '0', None),
 ]
+EQUAL_VALUES = {'0', '0.0', '-0', '0.0000001', '1e-7', '1', '1.0', 'one hundred', '100.00', '0 degrees celsius', '-0 degrees celsius', '0,0'}
 
 
 def calls():
@@ -48,7 +53,7 @@ def scenarios(tier, rnd):
         cs_pairs = cs
     sc = []
     # (i) alone in a fresh process (cold cache, main thread): packed 1 per scenario for a seeded third of the pool, plus all of it in pool order
-    alone = cs if tier == 'thorough' else [c for k, c in enumerate(cs) if k % 7 == 0]
+    alone = cs if tier == 'thorough' else [c for k, c in enumerate(cs) if k % 7 == 0 or c['text'] in EQUAL_VALUES]
     for c in alone:
         sc.append({'name': 'alone', 'kind': 'seq', 'calls': [c]})
     sc.append({'name': 'pool-order', 'kind': 'seq', 'calls': cs})
